@@ -27,8 +27,18 @@
                        uses and no handed-out slice refers to (true for a new
                        iterator and for a copy: [C08_new_iterator], [C08_copy]),
     - [addresses o i] : call [o] is Next / SetCombinationID / GetCombinationUnsafe
-                       on iterator [i]. *)
-From CSS Require Import Lib.Base Lib.Cases Model.Comb Proofs.Comb Model.CombHeap Model.CombCases Proofs.CombHeap.
+                       on iterator [i].
+
+    Section 8 is about several goroutines, each with an iterator of its own
+    (Model/CombConc.v): [lrun m calls s] is what the calls [LNext], [LSeek id],
+    [LGet], [LID], [LAmount] yield on an iterator standing at [s] when nobody
+    else exists; [view i ops es] picks, out of a schedule [ops] of calls on many
+    iterators with the returned values [es], the calls made on iterator [i];
+    [Owns st i a m]: iterator [i] is the object (array [a], maxValue [m]) and
+    [Private st i a].  Section 9: [seek_h], [run_h], [lrun_h] take the
+    iterator positions read by the harness after each SetCombinationID as
+    evaluation hints. *)
+From CSS Require Import Lib.Base Lib.Cases Model.Comb Proofs.Comb Model.CombHeap Model.CombConc Model.CombCases Proofs.CombHeap Proofs.CombConc.
 From Coq Require Import Sorting.Sorted.
 
 (** * Vocabulary *)
@@ -345,7 +355,91 @@ Theorem C08_heap_seek : forall st i id st1 e, WF st -> step (OSeek i id) st = Ok
 Proof. exact seek_value. Qed.
 Print Assumptions C08_heap_seek.
 
+(** * 8. Several goroutines, each with its own iterator: every schedule *)
+
+(** Whatever calls are made in between (on other iterators, their copies,
+    combinations handed out, new iterators), the calls made on a private
+    iterator return, in order, what [lrun] computes from its position alone,
+    and leave it where [lrun] leaves it.  The model has no state shared between
+    iterators; an implementation in which calls on different iterators share
+    anything mutable does not refine it - the correspondence check compares
+    real concurrent goroutines with [lrun] ([CConc] cases), and the
+    result-origin obligation forbids package state in these methods. *)
+Theorem C08_schedule_independent : forall ops st i a m st' es,
+  Owns st i a m -> run ops st = Ok (st', es) ->
+  (forall o, In o ops -> o <> OGetUnsafe i) ->
+  Owns st' i a m /\
+  exists gets, lrun m (map fst (view i ops es)) (current st i)
+               = Ok (current st' i, map snd (view i ops es), gets).
+Proof. exact sched_independent. Qed.
+Print Assumptions C08_schedule_independent.
+
+(** from the creation of the iterator on: its owner observes [lrun] from the first combination *)
+Theorem C08_new_then_any_schedule : forall st k m st1 e ops st' es,
+  WF st -> step (ONew k m) st = Ok (st1, e) -> run ops st1 = Ok (st', es) ->
+  (forall o, In o ops -> o <> OGetUnsafe (length (h_iters st))) ->
+  exists gets, lrun m (map fst (view (length (h_iters st)) ops es)) (first_comb k)
+               = Ok (current st' (length (h_iters st)), map snd (view (length (h_iters st)) ops es), gets).
+Proof. exact new_then_any_schedule. Qed.
+Print Assumptions C08_new_then_any_schedule.
+
+(** * 9. The upper half of the ID range; evaluation hints *)
+
+(** IDs with bit 63 set are sought and reported exactly (C08_seek restricted
+    to them, with the uint64 ID spelled out). *)
+Theorem C08_seek_upper_half : forall m k id, Z.of_nat k <= m + 1 -> m + 1 < 2 ^ 63 ->
+  binom (Z.to_nat (m + 1)) k < 2 ^ 64 -> 2 ^ 63 <= id < binom (Z.to_nat (m + 1)) k ->
+  exists s, seek m k id = Ok s /\ Valid m s /\ length s = k /\ rank m s = id /\ rank64 m s = id.
+Proof. exact seek_upper_half. Qed.
+Print Assumptions C08_seek_upper_half.
+
+(** A hint is used only when it is what [seek] computes: hinted evaluation is
+    evaluation. *)
+Theorem C08_seek_hint : forall m k id hint, seek_h m k id hint = seek m k id.
+Proof. exact seek_h_eq. Qed.
+Print Assumptions C08_seek_hint.
+
+Theorem C08_run_hints : forall ops hints st, run_h ops hints st = run ops st.
+Proof. exact run_h_eq. Qed.
+Print Assumptions C08_run_hints.
+
+Theorem C08_lrun_hints : forall m ops hints s, lrun_h m ops hints s = lrun m ops s.
+Proof. exact lrun_h_eq. Qed.
+Print Assumptions C08_lrun_hints.
+
+(** ... so the correspondence check compares the implementation with the un-hinted models. *)
+Theorem C08_check_hints_sound :
+  (forall m k id r, check (CSeek m k id r) = obs_match zlist_eqb r (seek m k id)) /\
+  (forall ops hints r, check (CProg ops hints r) = obs_match prog_eqb r (prog_obs ops)) /\
+  (forall ths, check (CConc ths) =
+     forallb (fun '(k, m, ops, _, r) => obs_match lobs_eqb r (lrun m ops (first_comb k))) ths).
+Proof. exact check_hints_sound. Qed.
+Print Assumptions C08_check_hints_sound.
+
 (** * Examples: the hypotheses above are satisfiable by non-trivial values *)
+
+(** two goroutines, two iterators (one beyond the lookup table), calls interleaved *)
+Example C08_ex_two_goroutines :
+  let sched := [ONew 2 1500; ONew 3 6; ONext 0; OSeek 1 20; OID 0; ONext 1; OSeek 0 1125749; OID 1; OID 0; OAmount 1] in
+  exists st es, run sched hinit = Ok (st, es) /\
+    map snd (view 0 (skipn 2 sched) (skipn 2 es)) = [EBool true; EZ 1; ENone; EZ 1125749] /\
+    lrun 1500 [LNext; LID; LSeek 1125749; LID] (first_comb 2)
+      = Ok ([1499; 1500], [EBool true; EZ 1; ENone; EZ 1125749], []) /\
+    map snd (view 1 (skipn 2 sched) (skipn 2 es)) = [ENone; EBool true; EZ 21; EZ 35] /\
+    lrun 6 [LSeek 20; LNext; LID; LAmount] (first_comb 3)
+      = Ok ([1; 3; 6], [ENone; EBool true; EZ 21; EZ 35], []).
+Proof. exact ex_two_goroutines. Qed.
+(** C(967,8) lies in [2^63, 2^64): ID 2^63 is sought and reported exactly *)
+Example C08_ex_seek_top_bit :
+  2 ^ 63 <= binom_fast 967 8 < 2 ^ 64 /\
+  seek 966 8 (2 ^ 63) = Ok [80; 98; 130; 138; 149; 591; 682; 822] /\
+  rank64 966 [80; 98; 130; 138; 149; 591; 682; 822] = 2 ^ 63 /\
+  amount64 966 8 = binom_fast 967 8.
+Proof. exact ex_seek_top_bit. Qed.
+Example C08_ex_wrong_hint :
+  seek_h 4 3 5 [0; 1; 2] = Ok [0; 3; 4] /\ seek_h 4 3 5 [0; 3; 4] = Ok [0; 3; 4] /\
+  seek_fast_ok 4 3 5 [0; 1; 2] = false /\ seek_fast_ok 4 3 5 [0; 3; 4] = true.
+Proof. exact ex_wrong_hint. Qed.
 
 (** GetCombination keeps [0;1] while the iterator moves on to [0;2]; the slice
     handed out by GetCombinationUnsafe (first result) is the iterator's own
